@@ -470,7 +470,7 @@ func base() []Strat {
 			},
 		},
 		{
-			Name: "Rsi", InRegistry: true, Params: []reg.Param{per("period", 14)}, FParams: []float64{30, 70},
+			Name: "Rsi", InRegistry: true, ThresholdPair: true, Params: []reg.Param{per("period", 14)}, FParams: []float64{30, 70},
 			Fix: func(c *reg.Config) {
 				if c.F[0] > c.F[1] {
 					c.F[0], c.F[1] = c.F[1], c.F[0]
@@ -492,7 +492,7 @@ func base() []Strat {
 			},
 		},
 		{
-			Name: "StochasticRsi", InRegistry: true, Params: []reg.Param{per("period", 14)}, FParams: []float64{0.2, 0.8},
+			Name: "StochasticRsi", InRegistry: true, ThresholdPair: true, Params: []reg.Param{per("period", 14)}, FParams: []float64{0.2, 0.8},
 			Fix: func(c *reg.Config) {
 				if c.F[0] > c.F[1] {
 					c.F[0], c.F[1] = c.F[1], c.F[0]
@@ -602,7 +602,7 @@ func base() []Strat {
 			},
 		},
 		{
-			Name: "MoneyFlowIndex", InRegistry: true, Params: []reg.Param{per("period", 14)}, FParams: []float64{80, 20},
+			Name: "MoneyFlowIndex", InRegistry: true, ThresholdPair: true, Params: []reg.Param{per("period", 14)}, FParams: []float64{80, 20},
 			Fix: func(c *reg.Config) {
 				if c.F[0] < c.F[1] {
 					c.F[0], c.F[1] = c.F[1], c.F[0]
